@@ -20,6 +20,9 @@ def run(tier):
                          extra={"kind2": k2, "traps": False, "exporters": False}))
         cfgs.append(dict(kind=k1, n=4, cfg=dict(CFG, extras=False, read=False), hidden=False, d=0, assertions=0, judge="c18",
                          extra={"kind2": k2, "traps": False, "exporters": False}))
+    # hooks that themselves move nodes (re-entrant calls): whatever that does, both mixins must do the same
+    cfgs.append(dict(kind="named:light", n=3, cfg=dict(CFG, extras=False, read=False), hidden=False, d=0, assertions=0, judge="c18",
+                     extra=extra, reenter="moves", name="named:light N=3 hooks that move a node re-entrantly A=0"))
     for fl in ("tree", "loop", "value", "assert"):
         cfgs.append(dict(kind="named:light", n=3, cfg=dict(CFG, extras=False), hidden=False, d=1, persistent=P2, assertions=0,
                          judge="c18", extra=extra, flavour=fl))
@@ -38,6 +41,7 @@ def run(tier):
         states = forest.discover(pool, "named:light", n, dict(CFG, extras=False, read=False, L=3 if n == 5 else n), False)
         pool.run([("mc.lockstep", "state_queries", dict(kind="named:light", kind2="named", n=n, states=s, pid="C18", traps_on=False,
                                                          exporters=False)) for s in core.shard(states, core.NPROC * 4)], into=t)
+        pool.run([("mc.lockstep", "deep_chain", dict(kind="named:light", kind2="named", pid="C18"))], into=t)
         shapes = tree.shapes_upto(6 if tier == "quick" else 7, n + 1)
         pool.run([("mc.lockstep", "shape_queries", dict(kind="named:light", kind2="named", shapes=c, pid="C18", traps_on=False,
                                                          exporters=False)) for c in core.chunks(shapes, core.NPROC * 4)], into=t)
@@ -53,5 +57,5 @@ def run(tier):
                 "and on all shapes up to %d nodes; non-trivial = the call changed the forest or raised" % (n, 6 if tier == "quick" else 7),
         "bounds": summ + [{"state_queries_N": n, "forest_states": len(states), "extra_shapes": len(shapes)}],
     }
-    return {"tally": t, "coverage": cov, "guards": ("lockstep_pairs", "query_vectors_compared", "nontrivial"),
+    return {"tally": t, "coverage": cov, "guards": ("lockstep_pairs", "query_vectors_compared", "nontrivial", "deep_chain_comparisons"),
             "assumptions": ["tree-node arguments only (the statement's scope)", "bounded universes and fault budgets as listed"]}
